@@ -876,7 +876,7 @@ class _NumericOperationsImpl(OperationsBlock):
             x = ndx.where(x.null, True, x.values)
         if axis is None and not keepdims and statically_empty(x):
             return ndx.asarray(True, dtype=ndx.bool)
-        return ndx.min(x.astype(ndx.int8), axis=axis, keepdims=keepdims).astype(
+        return ndx.min((x != 0).astype(ndx.int8), axis=axis, keepdims=keepdims).astype(
             ndx.bool
         )
 
@@ -886,7 +886,7 @@ class _NumericOperationsImpl(OperationsBlock):
             x = ndx.where(x.null, False, x.values)
         if axis is None and not keepdims and statically_empty(x):
             return ndx.asarray(False, dtype=ndx.bool)
-        return ndx.max(x.astype(ndx.int8), axis=axis, keepdims=keepdims).astype(
+        return ndx.max((x != 0).astype(ndx.int8), axis=axis, keepdims=keepdims).astype(
             ndx.bool
         )
 
